@@ -52,6 +52,49 @@ def rand_base(rng, nat=None, ncond=None, depth=None, p_const=0.05, knobs=None):
     return sig, conds
 
 
+def conj_consequent_base(rng):
+    """rules with a common antecedent, one or two of them with a conjunction of 2-4 literals as
+    consequent (several soft clauses for one conditional: MaxSAT cost != number of falsified
+    conditionals), optionally an exception layer on top"""
+    sig = list(NAMES)
+    g = sig[0]
+    rest = sig[1:]
+    rng.shuffle(rest)
+    k = rng.randint(2, 3)
+    conj_atoms, plain = rest[:k], rest[k:k + 2]
+    B = V(conj_atoms[0])
+    for a in conj_atoms[1:]:
+        B = And(B, V(a))
+    conds = [(B, V(g))] + [(V(p), V(g)) for p in plain]
+    if rng.random() < 0.4:
+        conds.append((Or(V(conj_atoms[0]), V(plain[0])), TOP))
+    used = [g] + conj_atoms + plain
+    if rng.random() < 0.4 and len(used) < 6:
+        h_ = [a for a in sig if a not in used][0]
+        used.append(h_)
+        conds.append((V(g), V(h_)))
+        conds.append((Not(V(plain[0])), V(h_)))
+    rng.shuffle(conds)
+    return [a for a in sig if a in used], conds
+
+
+def strong_falsifier(B, A):
+    """A and every conjunct of B false (for a conjunctive consequent), else A and not B"""
+    lits = []
+
+    def flat(f):
+        if f[0] == 'and':
+            flat(f[1])
+            flat(f[2])
+        else:
+            lits.append(f)
+    flat(B)
+    t = A
+    for l in lits:
+        t = And(t, Not(l))
+    return t
+
+
 def multi_exception_base(rng):
     """class b with properties q_j; m exception classes e_j (penguin, kiwi, ...) each negating 'its'
     property: two layers, the upper one with several independent rules, so queries can force a TIE of
@@ -180,8 +223,8 @@ def gen_base(rng, want='strong', family=None, max_tries=400, **kw):
     'weak_or_strong' | 'any'."""
     for _ in range(max_tries):
         fam = family or rng.choices(
-            ['rand', 'chain', 'indep', 'd4', 'multiex', 'weak'],
-            [6, 1, 2, 0.5, 1.5, 3 if want in ('weak', 'weak_or_strong') else 0])[0]
+            ['rand', 'chain', 'indep', 'd4', 'multiex', 'conjcons', 'weak'],
+            [6, 1, 2, 0.5, 1.5, 1, 3 if want in ('weak', 'weak_or_strong') else 0])[0]
         if fam == 'rand':
             sig, conds = rand_base(rng, **kw)
         elif fam == 'chain':
@@ -192,6 +235,8 @@ def gen_base(rng, want='strong', family=None, max_tries=400, **kw):
             sig, conds = d4_family(rng)
         elif fam == 'multiex':
             sig, conds = multi_exception_base(rng)
+        elif fam == 'conjcons':
+            sig, conds = conj_consequent_base(rng)
         else:
             sig, conds = weak_shape(rng)
         if want == 'any':
@@ -214,10 +259,22 @@ def tie_query(rng, sig, conds):
         return None
     layer = layers[-1] if rng.random() < 0.7 else rng.choice(layers)
     js = rng.sample(layer, min(len(layer), rng.randint(2, 3)))
+    conj = [j for j in layer if conds[j][0][0] == 'and']
+    plain = [j for j in layer if j not in conj]
+    if conj and len(plain) >= 2 and rng.random() < 0.5:
+        # one world class falsifies ONE conjunctive rule with every conjunct false, another falsifies
+        # TWO plain rules: fewer conditionals but more soft clauses on the first side
+        j0 = rng.choice(conj)
+        p1, p2 = rng.sample(plain, 2)
+        A = Or(strong_falsifier(*conds[j0]),
+               And(And(conds[p1][1], Not(conds[p1][0])), And(conds[p2][1], Not(conds[p2][0]))))
+        Bq = rng.choice([conds[p1][0], conds[j0][0], Or(conds[p1][0], conds[j0][0][1]),
+                         fml.rand_formula(rng, sig, 1, 0.0)])
+        return (Bq, A)
     A = None
     for j in js:
         Bj, Aj = conds[j]
-        t = And(Aj, Not(Bj))
+        t = And(Aj, Not(Bj)) if rng.random() < 0.7 else strong_falsifier(Bj, Aj)
         if rng.random() < 0.3:
             t = And(t, fml.rand_formula(rng, sig, 0, 0.0))
         A = t if A is None else Or(A, t)
